@@ -37,6 +37,10 @@ def obligations(tier):
             n = WARM[name](kw) + 1 + EXTRA[tier][name]
             obs.append(Ob(f"{name}({','.join(f'{k}={v}' for k, v in kw.items())})/n={n}", dict(spec=["ind", name, kw], n=n, posvol=(name == "VWAP")), NL if name != "ADX" else NL_UF,
                           weight=n * (20 if name in ("ADX", "aroon") else 3), budget_s=900 if tier == "quick" else 7200, max_paths=100000))
+    for name, kw, extra, n in (("MACD", dict(fast_period=2, slow_period=3, signal_period=2), dict(fullname_override="M.1"), 7), ("OBV", dict(), dict(name_suffix="v1.5"), 5),
+                               ("RSI", dict(period=2), dict(name_suffix="1.5"), 5), ("STOCH", dict(period=2, slow_period=3, smoothing_k=2), dict(fullname_override="st.och"), 7),
+                               ("TSI", dict(period=2, smooth_period=2), dict(name_suffix="t.s"), 6), ("VWAP", dict(), dict(name_suffix="v.w"), 4), ("aroon", dict(period=2), dict(fullname_override="ar.oon"), 4)):
+        obs.append(Ob(f"{name}{kw}{extra}/n={n}", dict(spec=["ind", name, kw], n=n, extra=extra, posvol=(name == "VWAP")), NL, weight=n * 3, budget_s=300, max_paths=100000))
     return obs
 
 
